@@ -22,6 +22,7 @@ theorem NoPanic.bind {α β} {x : R α} {f : α → R β} (hx : NoPanic x) (hf :
   | error e =>
     cases e with
     | err m => cases h
+    | errCtx m a => cases h
     | panic p => exact hx p rfl
 
 theorem NoPanic.map {α β} {x : R α} {f : α → β} (hx : NoPanic x) : NoPanic (f <$> x) := by
@@ -31,6 +32,7 @@ theorem NoPanic.map {α β} {x : R α} {f : α → β} (hx : NoPanic x) : NoPani
   | error e =>
     cases e with
     | err m => cases h
+    | errCtx m a => cases h
     | panic p => exact hx p rfl
 
 theorem NoPanic.ite {α} {c : Prop} [Decidable c] {a b : R α} (ha : NoPanic a) (hb : NoPanic b) :
@@ -194,6 +196,7 @@ theorem noPanic_fsbColGet (n : Int) (v : Option Bits) (data : Bytes) (idx : Nat)
     rw [hn] at h
     cases e with
     | err m => cases h
+    | errCtx m a => cases h
     | panic p => exact noPanic_fsbNew n data p hn
   | ok r =>
     obtain ⟨n', len⟩ := r
